@@ -269,10 +269,11 @@ int main(int argc, char **argv)
     m.name = sc.name;
     m.body = [sc]() { runScenario(sc); };
     bool timed = sc.name.find("timed") != std::string::npos;
-    m.quick.P = 2;
+    bool big = sc.threads.size() >= 4; // four-thread programs: one preemption less
+    m.quick.P = big ? 1 : 2;
     m.quick.T = timed ? 1 : 0;
     m.quick.E = 0;
-    m.thorough.P = 3;
+    m.thorough.P = big ? 2 : 3;
     m.thorough.T = timed ? 2 : 0;
     m.thorough.E = 1;
     m.spurious_wakeups = true; // only reachable in thorough (E>=1): all waits are predicate waits
